@@ -432,10 +432,13 @@ def generate(prop, rng, seed, index, tier):
             todo.extend(kids[x])
         return False
 
+    none_values = rng.random() < 0.3
+
     def emit_some(k):
         for _ in range(k):
             s = rng.choice(sources)
-            ops.append({'op': 'emit', 'node': s, 'v': tok[0]})
+            # (now and then the element is None: a value like any other, not "nothing delivered yet")
+            ops.append({'op': 'emit', 'node': s, 'v': None if none_values and rng.random() < 0.2 else tok[0]})
             tok[0] += 1
     emit_some(rng.randrange(0, 5))
     for _ in range(rng.randrange(1, 7 if big else 5)):
